@@ -1,6 +1,6 @@
 #!/bin/sh
 # seedtest.sh <PROPERTY> <dir with patch.diff [demo.py]> [tier]   -- apply a seeded change in a scratch worktree and run the check on it
-P="$1"; D="$2"; TIER="${3:-quick}"
+P="$1"; D="$(cd "$2" && pwd)"; TIER="${3:-quick}"
 WT=/tmp/st/wt-$$; mkdir -p /tmp/st
 git -C /repo worktree add -q --detach "$WT" HEAD || exit 2
 if ! git -C "$WT" apply "$D/patch.diff" 2>/dev/null; then
